@@ -96,6 +96,8 @@ var probeDocs = []string{
 	`<ul type="disc"><li type="a" value="3">l</li></ul><ol type="I"></ol><dl><dt>t</dt><dd>d</dd></dl><table summary="s"><tr><td colspan="2">c</td></tr></table>`,
 	`x<blink>unknown</blink>y<form><input type="image" src="javascript:alert(1)"></form><source src="javascript:x"><q cite="http://e.com/">q</q><del cite="x y">d</del>`,
 	` <title>t</title><noscript>n</noscript><frame src=x>after frame<textarea>ta</textarea> `,
+	// an element reached through two overlapping patterns, then elements reached through only one of them
+	`<custom-y title="t" class="c">1</custom-y><custom-x class="c" title="t">2</custom-x><b-y title="t" class="c">3</b-y><custom-y class="c">4</custom-y><custom-x class="c">5</custom-x>`,
 }
 
 func probe(p *bm.Policy) []string {
